@@ -364,6 +364,58 @@ func c07Exhaustive() []c07Case {
 			out = append(out, c07Case{U: &refmodel.Update{Actions: []refmodel.Action{{Kind: "ADD", Path: top, RHS: uv(":v")}}}, Item: mk(), Values: val.Item{":v": val.Num("5")}})
 		}
 	}
+	// SIBLINGS: several actions of one expression on different members of the SAME container (two list indexes,
+	// two map members, a member set and another removed, a swap of two elements) in both clause / action orders.
+	// Every right-hand side and every list index refers to the item as it was before the update.
+	sib := func(acts ...refmodel.Action) {
+		vals := val.Item{":a": val.Str("A"), ":b": val.Num("2"), ":c": val.List(val.Str("c"))}
+		used := val.Item{}
+		for _, a := range acts {
+			var walk func(e *refmodel.UExpr)
+			walk = func(e *refmodel.UExpr) {
+				if e == nil {
+					return
+				}
+				if e.Kind == "val" {
+					used[e.Val] = vals[e.Val]
+				}
+				for _, k := range e.Kids {
+					walk(k)
+				}
+			}
+			walk(a.RHS)
+		}
+		for _, ord := range [][]string{{"SET", "REMOVE", "ADD", "DELETE"}, {"REMOVE", "SET", "DELETE", "ADD"}} {
+			out = append(out, c07Case{U: &refmodel.Update{Actions: acts, ClauseOrder: ord}, Item: c07BaseItem(r, 2), Values: used.Clone()})
+		}
+		if len(acts) > 1 {
+			rev := []refmodel.Action{}
+			for i := len(acts) - 1; i >= 0; i-- {
+				rev = append(rev, acts[i])
+			}
+			out = append(out, c07Case{U: &refmodel.Update{Actions: rev}, Item: c07BaseItem(r, 2), Values: used.Clone()})
+		}
+	}
+	set := func(p refmodel.Path, e *refmodel.UExpr) refmodel.Action { return refmodel.Action{Kind: "SET", Path: p, RHS: e} }
+	rem := func(p refmodel.Path) refmodel.Action { return refmodel.Action{Kind: "REMOVE", Path: p} }
+	sib(rem(pth("l", 0)), rem(pth("l", 2)))
+	sib(rem(pth("l", 1)), rem(pth("l", 3)), rem(pth("l", 0)))
+	sib(rem(pth("l", 3)), rem(pth("l", 7)))
+	sib(rem(pth("lnul", 0)), rem(pth("lnul", 2)), rem(pth("lnul", 6)))
+	sib(set(pth("l", 0), uv(":a")), set(pth("l", 1), uv(":b")))
+	sib(set(pth("l", 0), uv(":a")), rem(pth("l", 1)))
+	sib(set(pth("l", 3), uv(":a")), rem(pth("l", 0)))
+	sib(set(pth("l", 0), up(pth("l", 1))), set(pth("l", 1), up(pth("l", 0))))
+	sib(set(pth("l", 2, 0), uv(":a")), rem(pth("l", 2, 1)))
+	sib(set(pth("l", 3, "q"), uv(":a")), set(pth("l", 3, "nw"), uv(":b")), rem(pth("l", 0)))
+	sib(set(pth("m", "x"), uv(":a")), set(pth("m", "nw"), uv(":b")))
+	sib(set(pth("m", "k", "y"), uv(":a")), set(pth("m", "k", "z"), uv(":b")), set(pth("m", "x"), up(pth("m", "k", "y"))))
+	sib(set(pth("m", "x"), uv(":a")), rem(pth("m", "li")))
+	sib(rem(pth("m", "x")), set(pth("m", "k", "nw"), uv(":c")))
+	sib(rem(pth("m", "k", "y")), rem(pth("m", "k", "z")))
+	sib(set(pth("m", "li", 0), uv(":a")), rem(pth("m", "li", 1)), set(pth("m", "x"), up(pth("m", "li", 1))))
+	sib(set(pth("m", "x"), up(pth("m", "k", "z"))), set(pth("m", "k", "z"), up(pth("m", "x"))))
+	sib(set(pth("zm", "nul"), uv(":a")), rem(pth("zm", "f")), set(pth("zm", "added"), up(pth("zm", "nul"))))
 	// a SET that copies an attribute together with an action that modifies the source in place,
 	// in every clause order: the copy must hold the pre-update value
 	type mut struct {
@@ -490,35 +542,69 @@ func c07Random(r *rand.Rand) c07Case {
 		}
 		return m
 	}
+	// paths of one expression must not overlap (DynamoDB refuses that), but they may be SIBLINGS inside one
+	// container; a list that takes a SET beyond its end is not touched by any other action (the resulting
+	// positions are not documented precisely enough)
+	usedPaths := []refmodel.Path{}
+	conflict := func(p refmodel.Path) bool {
+		for _, q := range usedPaths {
+			n := len(p)
+			if len(q) < n {
+				n = len(q)
+			}
+			same := true
+			for i := 0; i < n; i++ {
+				if p[i].IsIdx != q[i].IsIdx || p[i].Name != q[i].Name || p[i].Idx != q[i].Idx {
+					same = false
+					break
+				}
+			}
+			if same {
+				return true // equal, or one is a prefix of the other
+			}
+			if p[0].Name == q[0].Name && (len(p) == 1 || len(q) == 1) {
+				return true
+			}
+			if p[0].Name == q[0].Name && p[0].Name == "l" {
+				for _, pp := range []refmodel.Path{p, q} {
+					if len(pp) == 2 && pp[1].IsIdx && pp[1].Idx >= 4 {
+						return true
+					}
+				}
+			}
+		}
+		return false
+	}
 	usedTop := map[string]bool{}
+	_ = usedTop
 	actions := []refmodel.Action{}
 	n := 1 + r.Intn(4)
 	for tries := 0; len(actions) < n && tries < 30; tries++ {
 		switch r.Intn(4) {
 		case 0, 1:
 			t := mon.Pick(r, c07SetTargets[:19])
-			if usedTop[t[0].Name] {
+			if conflict(t) {
 				continue
 			}
 			g := mon.Pick(r, c07RHS)
 			tmp := val.Item{}
 			rhs := g.mk(tmp)
 			rename(rhs, fresh(tmp))
-			usedTop[t[0].Name] = true
+			usedPaths = append(usedPaths, t)
 			actions = append(actions, refmodel.Action{Kind: "SET", Path: t, RHS: rhs})
 		case 2:
 			t := mon.Pick(r, c07RemoveTargets)
-			if usedTop[t[0].Name] {
+			if conflict(t) {
 				continue
 			}
-			usedTop[t[0].Name] = true
+			usedPaths = append(usedPaths, t)
 			actions = append(actions, refmodel.Action{Kind: "REMOVE", Path: t})
 		default:
 			g := mon.Pick(r, c07AddDelete)
-			if usedTop[g.path[0].Name] {
+			if conflict(g.path) {
 				continue
 			}
-			usedTop[g.path[0].Name] = true
+			usedPaths = append(usedPaths, g.path)
 			m := fresh(val.Item{":v": g.v})
 			actions = append(actions, refmodel.Action{Kind: g.kind, Path: g.path, RHS: uv(m[":v"])})
 		}
